@@ -292,6 +292,18 @@ theorem host_binding_inert (secret salt : Bytes) :
     keyMaterial hostIDActual ⟨secret, salt, true⟩ = keyMaterial hostIDActual ⟨secret, salt, false⟩ := by
   simp [keyMaterial, hostIDActual]
 
+/-- Key material is a VALUE fixed at construction: in a history in which any number of filespaces are built
+from any settings (before or after this one), filespace `i` uses exactly the key material of ITS settings.
+(The Go constructor must therefore copy the caller's `Secret`/`Salt` into a fresh slice; the correspondence
+runs build the settings from shared buffers with spare capacity and overwrite them afterwards.) -/
+theorem construction_independent {β : Type} (host : Bytes) (base : β) (c : Cipher) (sets : List Settings)
+    (i : Nat) (h : i < sets.length) :
+    ((sets.map fun s => newEncryptFS host base s c)[i]'(by simpa using h)).hash = keyMaterial host sets[i] := by
+  simp [newEncryptFS]
+
+example : (([⟨[115], [97], false⟩, ⟨[115], [98], false⟩] : List Settings).map
+    fun s => newEncryptFS [] () s (mkCipher toyAEAD id .raw))[0].hash = [115, 97] := by decide
+
 /-! ### 5. The nonce is stored in front: different nonces give different stored bytes -/
 
 /-- Two writes whose `crypto/rand` draws differ in their first `nonceSize` bytes store different bytes —
